@@ -36,6 +36,7 @@ def explore_cell(cell):
         return rh.run_protocol(cfg, prefix, mode=mode)
 
     best = {}
+    n_viol, stopped = 0, False
     if cell.get("por"):
         def run_por(prefix, sleep_at):
             if cell.get("driver") == "calibrator":
@@ -60,6 +61,12 @@ def explore_cell(cell):
         for key, what in vs:
             if key not in best or pre < best[key][0]:
                 best[key] = (pre, what, list(ctl.choices))
+        n_viol += bool(vs)
+        if n_viol >= 40:
+            # the property is already refuted for this configuration many times over: stop unrolling a broken state space
+            st["cells_stopped_after_40_violating_executions"] = 1
+            stopped = True
+            break
         if not res["samples"] and pre >= 1:
             res["samples"].append({"cfg": cfg, "mode": mode, "schedule": list(ctl.choices), "preemptions": pre,
                                    "samplers": [repr(s) for s in obs["samplers"]], "log": [list(e) for e in obs["log"]]})
@@ -68,7 +75,7 @@ def explore_cell(cell):
     if cell.get("por"):
         st["por_pruned_executions"] = ex.explore_por.pruned
         st["por_cells"] = 1
-        if cell.get("crosscheck"):
+        if cell.get("crosscheck") and not stopped:
             # soundness cross-check of the reduction: the unreduced search over ALL interleavings must see the same outcomes and the same violation keys
             outs2, keys2 = set(), set()
             for _, ctl2, obs2 in ex.explore(run_one, bound=None, max_execs=60000):
